@@ -89,16 +89,19 @@ def main():
             shutil.rmtree(t, ignore_errors=True)
     out = V + '/seeded/RESULTS.json'
     old = json.load(open(out)) if os.path.exists(out) else {}
+    suffix = '' if a.tier == 'quick' else '@' + a.tier
     for sid in res:
-        old.setdefault(sid, {}).update(res[sid])
+        old.setdefault(sid, {}).update({p + suffix: v for p, v in res[sid].items()})
     json.dump(old, open(out, 'w'), indent=1, sort_keys=True)
     for sid in sorted(res):
-        det = sorted(p for p, v in old[sid].items() if v['exit'] == 1)
-        brk = sorted(p for p, v in old[sid].items() if v['exit'] == 2)
+        det = sorted(p for p, v in old[sid].items() if v['exit'] == 1 and '@' not in p)
+        brk = sorted(p for p, v in old[sid].items() if v['exit'] == 2 and '@' not in p)
+        det_t = sorted(p.split('@')[0] for p, v in old[sid].items() if v['exit'] == 1 and '@' in p and p.split('@')[0] not in det)
         mp = V + '/seeded/' + sid + '/meta.json'
         if os.path.exists(mp):
-            m = json.load(open(mp)); m['detected_by'] = det; m['analysis_broken_in'] = brk
+            m = json.load(open(mp)); m['detected_by'] = det; m['analysis_broken_in'] = brk; m['detected_by_thorough_only'] = det_t
             json.dump(m, open(mp, 'w'), indent=1)
+        det = sorted(set(det) | set(det_t))
         own = sid.split('-')[0]
         print('%-8s detected_by=%s%s%s' % (sid, ','.join(det) or '-', '  BROKEN(exit2)=' + ','.join(brk) if brk else '',
                                            '' if own in det or own not in pids else '   <-- own property check silent'))
